@@ -8,7 +8,7 @@ from .common import *
 
 ARTEFACTS = ["G1-consts", "G4-listings"]
 RULE = ("the hook's scripted Join (per split: 0 = left first, 1 = right first, 2 = right half on a new thread) drives "
-        "update_with_join on inputs with > simd_degree chunks: all 3^k schedules for inputs with k <= 4 splits (cyclic script), sampled "
+        "update_with_join on inputs with > simd_degree chunks (and update_mmap_rayon on real files of lengths around the 16 KiB mmap threshold inside pools of 1 and 2..16 threads): all 3^k schedules for inputs with k <= 4 splits (cyclic script), sampled "
         "beyond; update_rayon in pools of 1..16 threads; the C library's BLAKE3_USE_TBB seam implemented by harness/c with the same "
         "three modes; after the multithreaded update the state is observed through count, finalize, xof, a further single-threaded "
         "update and finalize; compared with the model (whose update does not depend on the schedule) and the spec; "
@@ -78,11 +78,16 @@ def stages(tier, seed, witness_search=False):
     k = 60 if tier == "quick" else 1500
     if witness_search:
         k *= 3
+    from . import c11
     return [LineStage("scripted-join+rayon", sched_scripts(rng, tier) + rayon_scripts(rng, k), normalize=normalize),
-            LineStage("c-tbb-seam", tbb_scripts(rng, k), impl="c", normalize=normalize)]
+            LineStage("c-tbb-seam", tbb_scripts(rng, k), impl="c", normalize=normalize),
+            # update_mmap_rayon on real files inside pools of 1 and 2..16 threads, against plain update of the same bytes
+            c11.FileStage(seed + 7, fifo=False)]
 
 
 def replay(d, lean_exe):
+    if d.get("stage") == "files":
+        return dict(still_fails=False, note="file scripts use scratch paths; re-run the check with the same VERIF_SEED")
     if d.get("stage") == "c-tbb-seam":
         return replay_line(d, lean_exe, impl="c", normalize=normalize)
     return replay_line(d, lean_exe, normalize=normalize)
